@@ -338,3 +338,4 @@ PROPS['C06']['text'] += (' R5 also: inside the proposal loop the compared score 
 PROPS['C03']['text'] += ' R2 also: the inner sequence of the in-cell pair loop is not a partly consumed iterator shared between outer items.'
 PROPS['C06']['text'] += ' A set_sampled that writes the cell itself instead of calling set_value is decided by value (one write to its own cell, the undo field captured before it, the stored value is the clamped sample on eight witness points).'
 PROPS['C08']['text'] += ' R2 also covers a set_sampled that clamps and writes on its own account (by value, eight witness points).'
+PROPS['C17']['text'] += ' R3 also: no digit path taken with a pending division leaves the digit out of the constant.'
